@@ -244,6 +244,62 @@ theorem cpu_write_before_after_beam (m : Machine) (z1 : VBus) (h1 : SGood m z1) 
     show z3.ctl.screen.front.getD _ d = _
     rw [hpix, if_pos (by omega)]
 
+/-- **… and the next frame shows it everywhere.** The same store; the program goes on (`n1` more
+instructions) until that frame has ended with the store as its last touching event, and on (`n2`
+more) through the whole next frame without touching the picture. The canvas delivered for that next
+frame is, at *every* pixel, the standard decode of the displayed RAM with the new byte (with the
+flash phase of that frame) — so a write the beam had already passed is on screen one frame later. -/
+theorem cpu_write_shows_next_frame (m : Machine) (z1 : VBus) (h1 : SGood m z1) (a : BitVec 16) (b : BitVec 8)
+    (hhit : z1.ctl.hitsDisplayed a = true) (v : Variant) (n1 n2 : Nat) (s : Cpu)
+    (x y : Nat) (hx : x < 256) (hy : y < 192) (d : Px) :
+    let c1 := z1.ctl.writeInternal a b
+    let sb2 := Z80.run v n1 (s, Bus.writeInternal a b z1)
+    let z2 := sb2.2
+    let z3 := (Z80.run v n2 sb2).2
+    z2.ctl.passedFrames = z1.ctl.passedFrames + 1 → z2.doneTouches = z1.touches + 1 → z2.touches = 0 →
+    z3.ctl.passedFrames = z1.ctl.passedFrames + 2 → z3.doneTouches = 0 →
+    z3.ctl.screen.front.getD (y * 256 + x) d =
+      Spec.stdPx (fun off => c1.mem.ramByte (Spec.visibleBank m z1.ctl.port7ffd) off)
+        (Spec.phaseAt Spec.codePhaseOrigin (z1.ctl.passedFrames + 1)) x y := by
+  intro c1 sb2 z2 z3 hpf2 hdt2 ht2 hpf3 hdt3
+  have g2 : SGood m z2 := program_keeps_good m v n1 s _ (h1.store a b)
+  have g3 : SGood m z3 := program_keeps_good m v n2 sb2.1 sb2.2 g2
+  have t12 : Track (z1.store a b) z2 := track_closed.run v n1 (s, z1.store a b)
+  have t23 : Track z2 z3 := track_closed.run v n2 sb2
+  obtain ⟨ha, ht⟩ := VBus.anchor_store z1 a b
+  rw [hhit, if_pos rfl] at ha ht
+  have hpfs : (z1.store a b).ctl.passedFrames = z1.ctl.passedFrames := by
+    rw [VBus.ctl_store]; exact writeInternal_pf _ _ _
+  have hda2 : z2.doneAnchor = c1 := by
+    rw [(t12.next (by rw [hpfs]; exact hpf2)).2 (by rw [ht]; exact hdt2), ha]
+  have hda3 : z3.doneAnchor = z2.anchor :=
+    (t23.next (by omega)).2 (by rw [ht2]; exact hdt3)
+  have d2 := g2.done (by omega)
+  have d3 := g3.done (by omega)
+  have hpix := d3.pixels (y * 256 + x) d (by omega)
+  have h00 := d3.fresh hdt3
+  rw [hda3] at hpix h00
+  have x1 : (y * 256 + x) % 256 = x := by omega
+  have x2 : (y * 256 + x) / 256 = y := by omega
+  rw [h00, if_neg (by omega), x1, x2] at hpix
+  -- the flash phase of that frame
+  have hfl : z2.anchor.screen.flash = Spec.phaseAt Spec.codePhaseOrigin (z1.ctl.passedFrames + 1) := by
+    rw [g2.awf.flashInv, g2.awf.counter, ← g2.inv.passed, hpf2]
+  -- the displayed bytes at its start are those right after the store
+  have hwf1 : c1.WF := by rw [← hda2]; exact d2.wf
+  have hcoh1 : c1.Coherent := by rw [← hda2]; exact d2.coh
+  have hbytes : ∀ off, off < 0x1B00 → z2.anchor.visibleMem off = c1.visibleMem off := by
+    intro off hoff
+    rw [← active_mem z2.anchor g2.awf g2.acoh off hoff, ← active_mem c1 hwf1 hcoh1 off hoff, g2.start0 ht2,
+      d2.carry off hoff, hda2]
+  obtain ⟨_, e2, _⟩ := writeInternal_screen z1.ctl h1.wf a b
+  have hvis : c1.visibleMem = fun off => c1.mem.ramByte (Spec.visibleBank m z1.ctl.port7ffd) off := by
+    unfold Ctl.visibleMem
+    rw [e2, h1.mach, writeInternal_port]
+  show z3.ctl.screen.front.getD (y * 256 + x) d = _
+  rw [hpix, hfl, ← hvis]
+  exact stdPx_congr _ _ _ _ _ hx hy hbytes
+
 /-! Non-vacuity -/
 
 /-- **The statements above do say something: a program that completes untouched frames.** The
